@@ -606,6 +606,9 @@ class Workspace(AbstractContextManager):
         """
         for child in children:
             if isinstance(child, PropertyGroup):
+                if child.parent is not parent:
+                    # not a property group of this parent: its record is not ours to delete
+                    continue
                 self._io_call(
                     H5Writer.add_or_update_property_group, child, remove=True, mode="r+"
                 )
